@@ -15,9 +15,12 @@ import (
 )
 
 // The assembled pipeline behind Collection.Pull, driven through the public API:
-//   - writers are goroutines of the harness; a writer may be parked at the yield point
-//     "coll.publish" (after its commit, before bus.Send), so that publications of different ids
-//     cross, or arrive after a subscription whose seed already shows them;
+//   - writers are goroutines of the harness; every Update/Add writer is parked at the yield point
+//     "coll.publish" (after its commit, before it takes its turn to publish) and released in commit
+//     order: since /repo 3d54e87 publications leave in commit order (turnstile), so what the store
+//     can produce is: several commits pending publication at once (overlapping writers, also of one
+//     id), a subscription opening while commits its seed already shows are still unpublished (they
+//     arrive later, in order, numbered <= seeded, before anything newer), never a crossing;
 //   - the consumer is the driver itself: it receives when the schedule says so;
 //   - "nothing to receive" and the final drain are read from the wait states of the pipeline's
 //     goroutines in ONE runtime.Stack snapshot (Pull loop parked on its input, merge stage parked
@@ -135,6 +138,7 @@ type pipeRun struct {
 	jtrace  []any
 	blocked bool
 	crossed bool
+	overlap bool
 	stale   bool
 	why     string
 	nrecv   int
@@ -152,7 +156,6 @@ func runPipe(r *vcoq.Rand, bp bool) (run pipeRun, ok bool, err error) {
 	c := resource.NewCollection()
 	s := newSState()
 	n := int64(0)
-	busy := map[int64]bool{}
 	var parked []*pwriter
 	var live []*pwriter // every writer goroutine started, to release on the way out
 	defer func() {
@@ -228,16 +231,6 @@ func runPipe(r *vcoq.Rand, bp bool) (run pipeRun, ok bool, err error) {
 			return false
 		}
 	}
-	pickID := func(nids int64) (int64, bool) {
-		for try := 0; try < 8; try++ {
-			id := int64(r.Intn(int(nids)))
-			if !busy[id] {
-				return id, true
-			}
-		}
-		return 0, false
-	}
-
 	// the collection before the subscription
 	pre := r.Range(0, 3)
 	for id := int64(0); id < int64(pre); id++ {
@@ -248,19 +241,16 @@ func runPipe(r *vcoq.Rand, bp bool) (run pipeRun, ok bool, err error) {
 		commit(pw)
 	}
 	nids := int64(pre) + int64(r.Range(1, 2))
-	// a writer that has committed and not yet published when the subscription opens
-	if r.Chance(50) {
-		if id, okid := pickID(nids); okid {
-			opts := s.options(id)
-			w := opts[0] // 'a' or 'u': a Delete publishes under the lock
-			pw := startWrite(id, w, true)
-			if !waitParked(pw) {
-				return run, false, nil
-			}
-			commit(pw)
-			busy[id] = true
-			parked = append(parked, pw)
+	// writers that have committed and not yet published when the subscription opens
+	for k := r.Intn(3); k > 0; k-- {
+		id := int64(r.Intn(int(nids)))
+		w := s.options(id)[0] // 'a' or 'u': a Delete publishes under the lock
+		pw := startWrite(id, w, true)
+		if !waitParked(pw) {
+			return run, false, nil
 		}
+		commit(pw)
+		parked = append(parked, pw)
 	}
 	ctx, cancel := context.WithCancel(context.Background())
 	defer cancel()
@@ -372,15 +362,44 @@ func runPipe(r *vcoq.Rand, bp bool) (run pipeRun, ok bool, err error) {
 		}
 	}
 
+	// parked is FIFO in commit order; only its head can publish
+	publishNext := func() (pipeRun, bool, error, bool) {
+		pw := parked[0]
+		parked = parked[1:]
+		close(pw.release)
+		okd, e := waitDone(pw)
+		if !okd {
+			r, o, er := fail(fmt.Sprintf("the publication of commit %d did not complete within %v", pw.commit, writeGuard))
+			return r, o, er, true
+		}
+		if e != nil {
+			return run, false, fmt.Errorf("collection write failed: %v", e), true
+		}
+		notePublished(pw)
+		return run, true, nil, false
+	}
 	steps := r.Range(3, 12)
 	for i := 0; i < steps; i++ {
 		k := r.Intn(100)
 		switch {
-		case k < 35 && free(): // a write that runs to completion
-			id, okid := pickID(nids)
-			if !okid {
-				continue
+		case k < 30 && len(parked) < 3: // a writer commits; its publication is pending
+			id := int64(r.Intn(int(nids)))
+			w := s.options(id)[0]
+			pw := startWrite(id, w, true)
+			if !waitParked(pw) {
+				return run, false, nil
 			}
+			commit(pw)
+			if len(parked) > 0 {
+				run.overlap = true
+			}
+			parked = append(parked, pw)
+		case k < 60 && len(parked) > 0 && free(): // the oldest pending commit publishes
+			if rr, o, e, stop := publishNext(); stop {
+				return rr, o, e
+			}
+		case k < 75 && len(parked) == 0 && free(): // a write that runs to completion (Delete included)
+			id := int64(r.Intn(int(nids)))
 			opts := s.options(id)
 			w := opts[r.Intn(len(opts))]
 			pw := startWrite(id, w, false)
@@ -394,40 +413,13 @@ func runPipe(r *vcoq.Rand, bp bool) (run pipeRun, ok bool, err error) {
 			}
 			commit(pw)
 			notePublished(pw)
-		case k < 55 && len(parked) < 3: // a writer parked between commit and publish
-			id, okid := pickID(nids)
-			if !okid {
-				continue
-			}
-			w := s.options(id)[0]
-			pw := startWrite(id, w, true)
-			if !waitParked(pw) {
-				return run, false, nil
-			}
-			commit(pw)
-			busy[id] = true
-			parked = append(parked, pw)
-		case k < 75 && len(parked) > 0 && free(): // let one of them publish
-			j := r.Intn(len(parked))
-			pw := parked[j]
-			parked = append(parked[:j], parked[j+1:]...)
-			close(pw.release)
-			okd, e := waitDone(pw)
-			if !okd {
-				return fail(fmt.Sprintf("the publication of commit %d did not complete within %v", pw.commit, writeGuard))
-			}
-			if e != nil {
-				return run, false, fmt.Errorf("collection write failed: %v", e)
-			}
-			busy[pw.id] = false
-			notePublished(pw)
 		default:
 			if _, stuck := tryRecv(); stuck {
 				return fail("an offered event could not be received")
 			}
 		}
 	}
-	// the end: everything parked publishes, the consumer drains
+	// the end: everything pending publishes, in commit order, and the consumer drains
 	for len(parked) > 0 {
 		if !free() {
 			if _, stuck := tryRecv(); stuck {
@@ -435,18 +427,9 @@ func runPipe(r *vcoq.Rand, bp bool) (run pipeRun, ok bool, err error) {
 			}
 			continue
 		}
-		j := r.Intn(len(parked))
-		pw := parked[j]
-		parked = append(parked[:j], parked[j+1:]...)
-		close(pw.release)
-		okd, e := waitDone(pw)
-		if !okd {
-			return fail(fmt.Sprintf("the publication of commit %d did not complete within %v", pw.commit, writeGuard))
+		if rr, o, e, stop := publishNext(); stop {
+			return rr, o, e
 		}
-		if e != nil {
-			return run, false, fmt.Errorf("collection write failed: %v", e)
-		}
-		notePublished(pw)
 	}
 	for {
 		got, stuck := tryRecv()
@@ -476,6 +459,9 @@ func pipeCase(run pipeRun) vcoq.Case {
 	}
 	if run.stale {
 		tags = append(tags, "pipe:stale-publication-arrives")
+	}
+	if run.overlap {
+		tags = append(tags, "pipe:several-commits-pending-publication")
 	}
 	if run.nseed > 0 {
 		tags = append(tags, "pipe:seeded")
